@@ -167,6 +167,29 @@ def mate_candidates(rng, n):
     return out
 
 
+def stalemate_prone(rng, n):
+    """a bare (or nearly bare) king at the edge with a hostile queen / rook / pawn close by: lines that end in stalemate exactly at the horizon"""
+    out = []
+    edge = [q for q in range(64) if q % 8 in (0, 7) or q // 8 in (0, 7)]
+    corner = [0, 7, 56, 63]
+    while len(out) < n:
+        board = {}
+        dk = rng.choice(corner) if rng.random() < 0.6 else rng.choice(edge)
+        board[dk] = "k"
+        near = lambda lo, hi: [q for q in range(64) if q not in board and lo <= max(abs(q % 8 - dk % 8), abs(q // 8 - dk // 8)) <= hi]
+        board[rng.choice(near(2, 3))] = "K"
+        board[rng.choice(near(1, 3))] = rng.choice("QQQR")
+        if rng.random() < 0.4:
+            q = rng.choice(near(1, 4))
+            if 8 <= q < 56:
+                board[q] = rng.choice("Pp")
+        if rng.random() < 0.3:
+            board[rng.choice(near(1, 5))] = rng.choice("rbnq")
+        f = board_to_fen(board, rng.choice("wb"))
+        out.append(f if rng.random() < 0.5 else flip_fen(f))
+    return out
+
+
 def abtt_model_check(wd, T):
     """ABTT.tla: TLC enumerates every small game (levelled DAG with transpositions, any move order, terminal nodes, fail-hard and fail-soft
     horizon values) and checks that the windowed search with the table returns the minimax value and leaves only true bounds in the table;
@@ -245,6 +268,9 @@ def check_c08(tier, replay=None):
         for f in rng.sample(sparse, min(len(sparse), 80 if T else 8)) + (DENSE if T else rng.sample(DENSE, 2)):
             go_case(cases, f, rng.choice([4, 5]) if f not in DENSE else 4, "ab", mode="free", warm=warm if rng.random() < 0.3 else (), w=30,
                     why="deeper search: table decisions only", ttcap=2000)
+        # stalemates on the horizon: move-less and not in check must be valued 0 wherever it occurs in the tree
+        for f in stalemate_prone(rng, 500 if T else 50):
+            go_case(cases, f, rng.choice([1, 2]), "plain", w=8, why="bare king at the edge, hostile queen close by: stalemates at the horizon")
         # carry-over: another game went through these very positions on the same engine before (position commands only); this game is
         # its bare FEN - no repetition history - so the exact value must be that of a fresh engine ("irrespective of what was searched before")
         for _ in range(120 if T else 6):
